@@ -67,6 +67,9 @@ def queryHeader (distinctCount : Bool) (inputHeader joinHeader : Option (List St
       (if distinctCount then [colName 1] else []) ++ (h.zipIdx.filter (fun p => !cols.contains p.2)).map (·.1)))
   | none => selectOutputHeader inputHeader joinHeader (if distinctCount then .other :: infos else infos)
 
+/-- an UPDATE query hands the input header to the writer unchanged (`writer.set_header(input_header)`), join or not -/
+def updateHeader (inputHeader : Option (List Str)) : Option (List Str) := inputHeader
+
 /-- number of output fields one item contributes for a record with `na` a-fields and `nb` b-fields -/
 def ColInfo.width (na nb : Nat) : ColInfo → Nat
   | .star none => na + nb
